@@ -89,7 +89,16 @@ def check_case(case, ctx):
         ctx.label('shape:' + c['shape'])
 
 
+CONTAINER_KINDS = ('GList*', 'GSList*', 'GHashTable*', 'GArray*', 'GPtrArray*')
+
+
 def known_shape(case, v):
+    if v.clause == 'container-without-element-type' and case.get('meta'):
+        # same root cause as the C07 finding: an unresolvable (type X) annotation on a container value
+        for c in case['meta']['callables']:
+            for nm, k in list(zip(c['names'], c['kinds'])) + [('Returns', c['ret'])]:
+                if k in CONTAINER_KINDS and any(a.startswith('(type ') for a in c['ann'].get(nm, [])):
+                    return 'container-without-element-type:unresolvable-type-annotation'
     if v.clause == 'exception:ValueError@giscanner/ast.py:get_parameter_index' and case.get('meta'):
         for c in case['meta']['callables']:
             if c['kinds'] and c['kinds'][-1] == 'GError**':
